@@ -7,7 +7,8 @@ import vlib
 PID = "C07"
 FILES = ["theories/Properties/C07.v", "theories/Properties/C07Derived.v", "theories/Properties/C07ErrFlow.v",
          "theories/Examples/C07Examples.v", "theories/Examples/C07Wirings.v",
-         "theories/Properties/C07Ctx.v", "theories/Examples/C07Ctx.v"]
+         "theories/Properties/C07Ctx.v", "theories/Examples/C07Ctx.v",
+         "theories/Properties/C07Quiet.v", "theories/Examples/C07Quiet.v"]
 
 
 def hexs(s):
@@ -69,11 +70,61 @@ def reg_text(reg, nops):
     return "%s: %s . %s" % (where, via, what)
 
 
+# hooks observed by harness/cmd/storageharness/store_c07_hooks.go (HK:<kind>:<n> tokens; model: Store/TxQuiet.v)
+HOOK_TEXT = {"ts": "AddEntityEventListener listener (synchronous change type)", "ta": "AddEntityEventListener listener (asynchronous change type)",
+             "fs": "AddEntityEventListenerF function (synchronous)", "fa": "AddEntityEventListenerF function (asynchronous)",
+             "us": "AddListener function (synchronous)", "ua": "AddListener function (asynchronous)",
+             "is": "AddEntityIdListener function (synchronous)", "ia": "AddEntityIdListener function (asynchronous)",
+             "c": "ProcessPostCommit of an AddEntityConstraint constraint", "uc": "ProcessPostCommit of an AddUntypedEntityConstraint constraint",
+             "mt": "AddEntityEventListener listener registered for three change types", "mf": "AddEntityEventListenerF function registered for three change types",
+             "mu": "AddListener function registered for three change types", "mi": "AddEntityIdListener function registered for three change types",
+             "tc": "Db.AddTxCompleteListener listener"}
+
+
+def hook_tokens(a):
+    return sorted(x for x in a.get("other", ()) if x.startswith("HK:"))
+
+
+def hooks_marked(t):
+    return any(s == "@c07hk" for s, _, _ in tx_vetoes(t))
+
+
+def hooks_text(toks):
+    out = []
+    for x in toks:
+        _, kind, n = x.split(":")
+        out.append("%s x %s" % (n, HOOK_TEXT.get(kind, kind)))
+    return "; ".join(out)
+
+
+def failure_text(t, a):
+    """why the (failed) transaction failed, from the inputs and the implementation's own results"""
+    res = a["results"]
+    bad = [k for k, r in enumerate(res) if r != "ok"]
+    if "panic" in res:
+        return "panic", "an operation panicked"
+    if bad:
+        nops = len(split_tx(t)[3])
+        if a["vetoed"]:
+            m = veto_mode(t)
+            return "veto:" + (m[0] if m else "P"), "operation %d of %d was vetoed by a constraint (%s)" % (bad[0] + 1, nops, res[bad[0]])
+        if "FAIL" in t and res[bad[0]] == "err" and bad[0] < nops and split_tx(t)[3][bad[0]][0] == "FAIL":
+            return "caller-error", "the caller's function returned an error at step %d of %d" % (bad[0] + 1, nops)
+        if any(x.startswith("RAISED:persist:") for x in a.get("other", ())):
+            return "storage-error", "operation %d of %d was refused while the entity was persisted (%s)" % (bad[0] + 1, nops, res[bad[0]])
+        return "rejected-op:" + res[bad[0]], "operation %d of %d was rejected (%s)" % (bad[0] + 1, nops, res[bad[0]])
+    return "precommit-after-successful-body", ("every operation of the function succeeded (%s) and a pre-commit action failed"
+                                                % (" ".join(res) or "no operation"))
+
+
+SILENCE_CHECKED = {}
+
+
 def coarse(results):
     return tuple("ok" if r == "ok" else "error" for r in results)
 
 
-def compare(a, b, typed=False):
+def compare(a, b, typed=False, hooks=False):
     ra, rb = storefam.proj_results(a), storefam.proj_results(b)
     if typed:
         # the vetoes of this transaction carry an error kind of their own and are raised at another stage than the
@@ -86,6 +137,9 @@ def compare(a, b, typed=False):
             sorted(set(a["facts"]) - set(b["facts"]))[:6], sorted(set(b["facts"]) - set(a["facts"]))[:6])
     if a["events"] != b["events"]:
         return "delivered events differ: impl %s model %s" % (a["events"], b["events"])
+    if hooks and hook_tokens(a) != hook_tokens(b):
+        return "hook executions differ (listeners of every style, constraints, tx-complete listeners): impl %s model %s" % (
+            hook_tokens(a), hook_tokens(b))
     return None
 
 
@@ -148,6 +202,13 @@ def oracle_(sch, txs, io, mo):
         if dead_fail and not live_fail and not precommit_fails and a["commit"]:
             ORACLE_HITS["candidate:precommit-on-new-tx-context-never-run"] = ORACLE_HITS.get("candidate:precommit-on-new-tx-context-never-run", 0) + 1
         if not a["commit"]:
+            fk, ftext = failure_text(t, a)
+            SILENCE_CHECKED[fk] = SILENCE_CHECKED.get(fk, 0) + 1
+            hk = hook_tokens(a)
+            if hk:
+                out.append(("C07:listener-after-rollback", "%s returned an error (%s) and the database is unchanged, yet hooks ran for the "
+                            "failed transaction: %s" % ("Db.Batch" if any(v[0] == "@batch" for v in tx_vetoes(t)) else "Db.Update",
+                                                        ftext, hooks_text(hk)), k))
             if ca_after:
                 out.append(("C07:commit-action-after-rollback", "%s commit action(s) registered through a context of the transaction ran although "
                             "the transaction failed (registrations: %s)" % (
@@ -406,7 +467,7 @@ def describe(case):
                 parts.append("Create %s/%s with a refused tag value" % (o[1], unhex(o[2])))
             else:
                 parts.append("caller error")
-        vt = ["%s/%s/%s" % (a, b, unhex(i)) for a, b, i in vetoes if a not in ("@c07pc", "@c07open")]
+        vt = ["%s/%s/%s" % (a, b, unhex(i)) for a, b, i in vetoes if a not in ("@c07pc", "@c07open", "@c07hk")]
         opn, regs = ctx_program(p.split())
         ctxp = ""
         if regs or opn:
@@ -423,7 +484,7 @@ def short(s):
 
 def compare_case(sch, txs):
     def cmp(a, b, k):
-        return compare(a, b, typed=veto_mode(txs[k]) is not None)
+        return compare(a, b, typed=veto_mode(txs[k]) is not None, hooks=hooks_marked(txs[k]))
     return cmp
 
 
@@ -445,6 +506,8 @@ def main(argv):
                         "after every transaction the bolt file is traversed and compared with the model state, results and delivered events included.",
                         command="storec07", compare_case=compare_case)
     c.cov["oracle_hits"] = dict(ORACLE_HITS)
+    # failed transactions on which the silence of every hook kind was checked, by failure kind
+    c.cov["silence_checked_failed_tx"] = dict(SILENCE_CHECKED)
     if c.violations and not c.replay:
         vlib.log("  oracle hits per key (all histories): %s" % json.dumps(ORACLE_HITS, sort_keys=True))
         shrink_violations(c)
